@@ -87,6 +87,8 @@ type isim struct {
 	broken   bool // a (known) violation desynchronised the model: the run ends
 	wedged   bool
 	nsub     int
+
+	postPoison int // blocks published after the ill-typed bundle
 }
 
 func newIndexSim(env *simcore.Env, cfg simcore.Op) simcore.Sim {
@@ -366,6 +368,15 @@ func (s *isim) Next(rng *simcore.RNG) simcore.Op {
 	}
 	s.opsLeft--
 	w := []int{30, 35, 4, 0, 0}
+	if s.poisoned && s.env.IsKnown("C19", "lost-foreign-type-mismatch") {
+		// what happens after an ill-typed bundle depends on map order once that defect is listed as
+		// known (the run carries on): exactly one more block, no searches, so that the trace stays
+		// a function of the seed
+		if s.postPoison >= 1 {
+			return nil
+		}
+		w = []int{1, 0, 0, 0, 0}
+	}
 	if s.height == 0 {
 		w = []int{1, 0, 0, 0, 0}
 	}
@@ -528,6 +539,9 @@ func (s *isim) applyBlock(op simcore.Op) {
 	s.txs = append(s.txs, txs...)
 	e.Count("op.block")
 	e.Add("op.tx", int64(len(txs)))
+	if s.poisoned {
+		s.postPoison++
+	}
 	wedged := false
 	select {
 	case <-done:
@@ -703,7 +717,9 @@ func (s *isim) searchTxs(cs []cond, tight bool) {
 	if feat != "" {
 		e.Count("probe.search_feature" + feat)
 	}
-	e.Logf("txsearch %q -> %d", qstr, len(res))
+	if feat == "" { // for the other input classes the outcome may depend on map order inside Search (known findings)
+		e.Logf("txsearch %q -> %d", qstr, len(res))
+	}
 }
 
 func (s *isim) searchBlocks(cs []cond, tight bool) {
@@ -760,11 +776,13 @@ func (s *isim) searchBlocks(cs []cond, tight bool) {
 		e.Count("probe.search_feature" + feat)
 	}
 	sort.Slice(res, func(i, j int) bool { return res[i] < res[j] })
-	e.Logf("blocksearch %q -> %v", qstr, res)
+	if feat == "" {
+		e.Logf("blocksearch %q -> %v", qstr, res)
+	}
 }
 
 func (s *isim) Finish() {
-	if s.broken || s.wedged {
+	if s.broken || s.wedged || (s.poisoned && s.env.IsKnown("C19", "lost-foreign-type-mismatch")) {
 		return
 	}
 	// every committed block and tx is (still) indexed
